@@ -309,4 +309,72 @@ def xSkip (s : State) (h : Nat) (k : XKind) (n : Nat) : Out Unit :=
   | .fail s1 e => .fail s1 e
   | .fault w => .fault w
 
+/-! ### map<K, V> (linear search map over a typed_array of entries; here 1-byte keys and values) -/
+
+/-- index of the first entry whose key is `key` -/
+def mapFind (s : State) (h : Nat) (key : Byte) : Option Nat :=
+  let v := s.abs h
+  (List.range (v.length / 2)).find? fun i => v.getD (2 * i) 0 = key
+
+/-- `map::get(key)` -/
+def mapGet (s : State) (h : Nat) (key : Byte) : Option Byte :=
+  (mapFind s h key).map fun i => (s.abs h).getD (2 * i + 1) 0
+
+/-- `map::set(key, value)`: the value of an existing entry is replaced in a private copy of the entries, a new
+    entry is appended -/
+def mapSet (s : State) (h : Nat) (k : XKind) (key val : Byte) : Out Unit :=
+  match mapFind s h key with
+  | some i =>
+    (match uDetach s h k with
+     | .ok s1 _ => poke s1 h (2 * i + 1) [val]
+     | .fail s1 e => .fail s1 e
+     | .fault w => .fault w)
+  | none => uInsert s h k (Int.ofNat (xLength s h k)) (some [key, val]) none
+
+/-! ### pointer_array<T> (typed_array of pointers; 8-byte plain elements) -/
+
+/-- the 8-byte elements of a byte list -/
+def elems8 (v : List Byte) : List (List Byte) :=
+  (List.range (v.length / 8)).map fun i => (v.drop (8 * i)).take 8
+
+/-- `pointer_array::swap(p1, p2)`: on a private copy; positions outside the elements are refused -/
+def swapX (s : State) (h : Nat) (k : XKind) (p1 p2 : Int) : Out Unit :=
+  let len := xLength s h k
+  if p1 < 0 ∨ p2 < 0 ∨ p1.toNat ≥ len ∨ p2.toNat ≥ len then .fail s .null
+  else
+    let v := s.abs h
+    let a := (v.drop (8 * p1.toNat)).take 8
+    let b := (v.drop (8 * p2.toNat)).take 8
+    match uDetach s h k with
+    | .ok s1 _ =>
+      (match poke s1 h (8 * p1.toNat) b with
+       | .ok s2 _ => poke s2 h (8 * p2.toNat) a
+       | .fail s2 e => .fail s2 e
+       | .fault w => .fault w)
+    | .fail s1 e => .fail s1 e
+    | .fault w => .fault w
+
+/-- `pointer_array::compact()`: the non-null pointers move to the front in order and the length shrinks; a shared
+    buffer is replaced by a new one with the compacted content; an immutable one is left alone -/
+def compactX (s : State) (h : Nat) (k : XKind) : Out Unit :=
+  match s.handle h with
+  | none => .ok s ()
+  | some b =>
+    match s.buf? b with
+    | none => .fault "compact: freed buffer"
+    | some x =>
+      if x.immutable then .ok s ()
+      else
+        let keep := (elems8 x.content).filter fun e => e ≠ zeros 8
+        let data := keep.flatten
+        if ¬ x.shared then
+          .ok (setUsed s b x (Mem.write x.data 0 (data ++ zeros (x.used / 8 * 8 - data.length))) data.length) ()
+        else
+          let nb := s.bufs.length
+          let s1 := s.newBuf data.length 0 (some k.t)
+          match s1.buf? nb with
+          | none => .fault "compact: freed buffer"
+          | some z =>
+            (replaceBuf (setUsed s1 nb z (Mem.write z.data 0 data) data.length) h (some nb) (s.handle h)).unit
+
 end Mpt.Heap
